@@ -1048,7 +1048,11 @@ class _ReplayRun:
     """collects what a Run would report, for --replay"""
     def __init__(self):
         self.fails, self.obl = [], []
+        self.known = {k.get('signature') for k in common.load_known() if k.get('property') == 'C13' and k.get('status') == 'open'}
     def fail(self, what, data, signature=None):
+        if signature is not None and signature in self.known:
+            print('replay: (open known finding met: %s)' % signature)
+            return
         self.fails.append((what, signature))
     def oblige(self, name, ok, detail=''):
         self.obl.append((name, ok, detail))
